@@ -668,7 +668,7 @@ def flag_while_to_for(fn: ast.FunctionDef):
     return fn
 
 
-def inline_local_objects(fi, index, fn: ast.FunctionDef | None = None, depth: int = 3):
+def inline_local_objects(fi, index, fn: ast.FunctionDef | None = None, depth: int = 3, known: dict | None = None):
     """`row = _Helper(a, b); ...; row.step(j); ...; use(row.field)` with `_Helper` a small class of the same module (fields set in
     `__init__`, simple methods) is read as the code it stands for: the fields become locals `row__field`, the constructor and the
     method calls are expanded in place. Returns a rewritten deep copy of `fn` (default: fi.node)."""
@@ -692,8 +692,11 @@ def inline_local_objects(fi, index, fn: ast.FunctionDef | None = None, depth: in
                 v = a.targets[0].id
                 if sum(1 for n in ast.walk(fn) if isinstance(n, ast.Name) and n.id == v and isinstance(n.ctx, ast.Store)) == 1:
                     objs[v] = c
+    for v_, c_ in (known or {}).items():
+        objs.setdefault(v_, c_)  # names known to hold such an object although this function does not create it (an attribute of self, renamed by the caller)
     if not objs:
         return fn
+    props = {}
 
     def localise(stmts, v, fields, expanded=True):
         """`expanded`: the statements come out of a method of the helper class (their `self` is the object)."""
@@ -704,6 +707,9 @@ def inline_local_objects(fi, index, fn: ast.FunctionDef | None = None, depth: in
                 self.generic_visit(n)
                 if isinstance(n.value, ast.Name) and n.value.id in recv and n.attr in fields:
                     return ast.copy_location(ast.Name(id=f"{v}__{n.attr}", ctx=n.ctx), n)
+                if isinstance(n.value, ast.Name) and n.value.id in recv and isinstance(n.ctx, ast.Load) and n.attr in props.get(v, {}):
+                    # a property of the helper whose body is one `return <expr>`: the expression, read on the object's fields
+                    return localise([ast.Expr(value=copy.deepcopy(props[v][n.attr]))], v, fields, expanded=True)[0].value
                 return n
 
             def visit_Name(self, n):
@@ -712,6 +718,11 @@ def inline_local_objects(fi, index, fn: ast.FunctionDef | None = None, depth: in
         return [T().visit(s) for s in stmts]
 
     for v, c in objs.items():
+        props[v] = {}
+        for mname_, m_ in c.methods.items():
+            body_ = [s_ for s_ in m_.node.body if not (isinstance(s_, ast.Expr) and isinstance(s_.value, ast.Constant))]
+            if any("property" in ast.unparse(d_) for d_ in m_.node.decorator_list) and len(body_) == 1 and isinstance(body_[0], ast.Return) and body_[0].value is not None:
+                props[v][mname_] = body_[0].value
         fields = {t.attr for s in ast.walk(c.methods["__init__"].node) if isinstance(s, (ast.Assign, ast.AnnAssign, ast.AugAssign))
                   for t in (s.targets if isinstance(s, ast.Assign) else [s.target]) for t in [t] if isinstance(t, ast.Attribute) and isinstance(t.value, ast.Name) and t.value.id == "self"}
         for _ in range(depth):
@@ -736,12 +747,17 @@ def inline_local_objects(fi, index, fn: ast.FunctionDef | None = None, depth: in
                         calls = [x for x in calls if any(x is y for y in ast.walk(st.test))]
                     done = False
                     for x in calls:
-                        ex = _expand(x, _H(c.methods[x.func.attr].node), counter)
+                        # the caller's own `self` inside the arguments is not the helper object: kept apart while the expanded body is localised
+                        x2 = copy.copy(x)
+                        x2.args = [_Rename({"self": "self__outer"}).visit(copy.deepcopy(a_)) for a_ in x.args]
+                        x2.keywords = [ast.keyword(arg=k_.arg, value=_Rename({"self": "self__outer"}).visit(copy.deepcopy(k_.value))) for k_ in x.keywords]
+                        ex = _expand(x2, _H(c.methods[x.func.attr].node), counter)
                         if ex is None:
                             continue
                         pro, res = ex
-                        out.extend(localise(pro, v, fields))
-                        res = localise([ast.Expr(value=res)], v, fields)[0].value if res is not None else ast.Constant(value=None)
+                        back = lambda sts: [_Rename({"self__outer": "self"}).visit(s_) for s_ in sts]
+                        out.extend(back(localise(pro, v, fields)))
+                        res = back([localise([ast.Expr(value=res)], v, fields)[0]])[0].value if res is not None else ast.Constant(value=None)
 
                         class Sub(ast.NodeTransformer):
                             def visit_Call(self, node):
